@@ -15,7 +15,7 @@
 using namespace vh;
 #define RLX __ATOMIC_RELAXED
 
-extern "C" volatile int verif_pt_delay_permille, verif_pt_spurious_permille; extern "C" volatile long verif_pt_delays, verif_pt_spurious, verif_pt_dead_uses;
+extern "C" volatile int verif_pt_delay_permille, verif_pt_spurious_permille, verif_pt_eintr_permille; extern "C" volatile long verif_pt_delays, verif_pt_spurious, verif_pt_dead_uses, verif_pt_eintrs;
 #ifndef VERIF_NO_PTSHIMS
 static const char* g_prim = "?";
 extern "C" void verif_pt_violation(const char* what, const void* addr) {
@@ -141,6 +141,7 @@ static void runScenario(long idx, int prim) {
 #ifndef VERIF_NO_PTSHIMS
   g_prim = kPrim[prim];
   verif_pt_delay_permille = r.chance(2, 3) ? (int)r.range(20, 400) : 0; verif_pt_spurious_permille = r.chance(1, 2) ? (int)r.range(20, 300) : 0;
+  verif_pt_eintr_permille = (prim == 1 && r.chance(1, 2)) ? (int)r.range(50, 500) : 0;   // interrupted sem_timedwait: the library must retry, not give up early
 #endif
   genScripts(sc, r);
   // Monitor's final step fix-up: the untimed wait is op 3 at position n-2 followed by unlock; mark "final" by making wait the last *blocking* step
@@ -257,6 +258,43 @@ static void runPulse(long idx) {
 #endif
 }
 
+// ---- Monitor, strict: "a set() issued after a waiter has taken the monitor releases a waiter" - one set(), one released waiter, even when timed waiters
+// time out at the same moment. Only the main thread calls set(), and only when (a) an untimed waiter is proven inside wait() and (b) the previous
+// set() has been consumed; it then requires one more successful wait (bounded progress, 30 s).
+struct MS { Monitor* mon; int announced, untimedReturned, timedTrue, stop; int rounds; long timedFalse; };
+static void* msUntimed(void* p) { MS& m = *(MS*)p; for (int i = 0; i < m.rounds; ++i) { m.mon->lock(); __atomic_fetch_add(&m.announced, 1, RLX); bool ok = m.mon->wait(); if (!ok) fail("Monitor.wait/result", "untimed wait returned false"); __atomic_fetch_add(&m.untimedReturned, 1, RLX); m.mon->unlock(); } return 0; }
+struct MSTimed { MS* m; u64 seed; };
+static void* msTimed(void* p) { MSTimed& a = *(MSTimed*)p; MS& m = *a.m; Rng r(a.seed, 1197, 0); while (!__atomic_load_n(&m.stop, RLX)) { m.mon->lock(); bool ok = m.mon->wait((int64)r.range(1, 4)); if (ok) __atomic_fetch_add(&m.timedTrue, 1, RLX); else __atomic_fetch_add(&m.timedFalse, 1, RLX); m.mon->unlock(); if (r.chance(1, 4)) sched_yield(); } return 0; }
+static void runMonitorStrict(long idx) {
+  beginCase(idx); Rng r(opts.seed, 1196, (u64)idx);
+#ifndef VERIF_NO_PTSHIMS
+  g_prim = "Monitor"; verif_pt_delay_permille = r.chance(1, 2) ? (int)r.range(20, 300) : 0; verif_pt_spurious_permille = r.chance(1, 2) ? (int)r.range(20, 200) : 0; verif_pt_eintr_permille = 0;
+#endif
+  MS m; memset(&m, 0, sizeof m); m.mon = new Monitor; m.rounds = (int)r.range(3, 20); int W = (int)r.range(1, 2), Z = (int)r.range(1, 2);
+  setctx("Monitor.set/strict-handshake"); hist.addf("# monitor-strict: %d untimed waiter(s) x %d rounds, %d timed waiter(s) cycling wait(1..4 ms), only main calls set()\n", W, m.rounds, Z);
+  pthread_t tw[2], tz[2]; MSTimed za[2];
+  for (int i = 0; i < W; ++i) pthread_create(&tw[i], 0, msUntimed, &m);
+  for (int i = 0; i < Z; ++i) { za[i].m = &m; za[i].seed = r.next(); pthread_create(&tz[i], 0, msTimed, &za[i]); }
+  long sets = 0; int totalUntimed = W * m.rounds;
+  while (__atomic_load_n(&m.untimedReturned, RLX) < totalUntimed) {
+    long spins = 0;
+    // (a) some untimed waiter announced (under the lock) and has not returned; taking and releasing the lock proves it is parked inside wait()
+    while (__atomic_load_n(&m.announced, RLX) <= __atomic_load_n(&m.untimedReturned, RLX)) { struct timespec ts = { 0, 50000 }; nanosleep(&ts, 0); if (++spins > 600000) fail("Monitor/strict/no-progress", "untimed waiter never reached wait() within 30 s"); }
+    m.mon->lock(); m.mon->unlock();
+    long before = __atomic_load_n(&m.untimedReturned, RLX) + __atomic_load_n(&m.timedTrue, RLX);
+    if (before != sets) fail("Monitor.wait/more-successes-than-sets", "%ld successful waits after %ld set() calls", before, sets);
+    m.mon->set(); ++sets;
+    for (spins = 0; __atomic_load_n(&m.untimedReturned, RLX) + __atomic_load_n(&m.timedTrue, RLX) < sets; ++spins) { struct timespec ts = { 0, 50000 }; nanosleep(&ts, 0);
+      if (spins > 600000) fail("Monitor.set/waiter-not-released", "set() number %ld was issued while a waiter was inside wait(), but no wait returned true within 30 s (%d timed waiters were cycling)", sets, Z); }
+    long after = __atomic_load_n(&m.untimedReturned, RLX) + __atomic_load_n(&m.timedTrue, RLX);
+    if (after > sets) fail("Monitor.wait/more-successes-than-sets", "%ld successful waits after %ld set() calls", after, sets);
+  }
+  __atomic_store_n(&m.stop, 1, RLX);
+  for (int i = 0; i < W; ++i) pthread_join(tw[i], 0); for (int i = 0; i < Z; ++i) pthread_join(tz[i], 0);
+  delete m.mon; cnt("monitor_strict_sets", sets); cnt("monitor_strict_timed_timeouts", m.timedFalse); cnt("monitor_strict_sets_consumed_by_timed_waiter", m.timedTrue); cnt("ops", sets * 2);
+  endCase(mix(0xB, (u64)idx), true);
+}
+
 // ---- Thread: join returns the proc's value after it has finished
 static int g_threadSlots[8];
 static uint threadProc(void* p) { long v = (long)p; for (volatile int i = 0; i < 1000 + (v % 7) * 500; ++i) {} g_threadSlots[v & 7] = (int)v; return (uint)(v * 3 + 1); }
@@ -279,11 +317,11 @@ static void runThread(long idx) {
 int main(int argc, char** argv) {
   init(argc, argv, "h_sync");
   if (opts.probe) harnessBug("no probes in h_sync");
-  const char* m = opts.mode; int prim = !strcmp(m, "mutex") ? 0 : !strcmp(m, "semaphore") ? 1 : !strcmp(m, "signal") ? 2 : !strcmp(m, "monitor") ? 3 : !strcmp(m, "destroy") ? 10 : !strcmp(m, "thread") ? 11 : !strcmp(m, "pulse") ? 12 : -1;
+  const char* m = opts.mode; int prim = !strcmp(m, "mutex") ? 0 : !strcmp(m, "semaphore") ? 1 : !strcmp(m, "signal") ? 2 : !strcmp(m, "monitor") ? 3 : !strcmp(m, "destroy") ? 10 : !strcmp(m, "thread") ? 11 : !strcmp(m, "pulse") ? 12 : !strcmp(m, "monitor-strict") ? 13 : -1;
   if (prim < 0) harnessBug("unknown mode %s", m);
-  for (long idx = opts.start; idx < opts.start + opts.cases; ++idx) { if (!mine(idx)) continue; if (prim == 10) runDestroy(idx); else if (prim == 11) runThread(idx); else if (prim == 12) runPulse(idx); else runScenario(idx, prim); }
+  for (long idx = opts.start; idx < opts.start + opts.cases; ++idx) { if (!mine(idx)) continue; if (prim == 10) runDestroy(idx); else if (prim == 11) runThread(idx); else if (prim == 12) runPulse(idx); else if (prim == 13) runMonitorStrict(idx); else runScenario(idx, prim); }
 #ifndef VERIF_NO_PTSHIMS
-  cnt("pthread_shim_delays", verif_pt_delays); cnt("pthread_shim_spurious_wakeups", verif_pt_spurious);
+  cnt("pthread_shim_delays", verif_pt_delays); cnt("pthread_shim_spurious_wakeups", verif_pt_spurious); cnt("pthread_shim_injected_eintr", verif_pt_eintrs);
 #endif
   leakCheck("sync/leak");
   finish();
